@@ -47,6 +47,13 @@ def run(ck):
         for p in ps:
             p["id"] = len(progs) + 1
             progs.append(p)
+    # calls of host functions, with and without a result (a callable may return nil, which the VM turns into undefined):
+    # every call of a native function is a tracked allocation site
+    hostid = [["h", {"k": "hostfn", "name": "hostid"}]]
+    for src in ("a := h()\nb := h()\nc := h()\nd := h()\n", "a := h(1)\nb := h()\nc := h([1])\nd := h()\n",
+                "f := func(n) { if n == 0 { return h() }; h(); return f(n - 1) }\nr := f(4)\n",
+                "s := 0\nfor i := 0; i < 5; i++ { h(); s += i }\n", "m := {k: h}\nm.k()\nx := m.k(2)\nm.k()\n"):
+        progs.append({"id": len(progs) + 1, "src": src, "inputs": hostid, "mods": [], "family": "hostnil"})
     byid = {p["id"]: p for p in progs}
     base = [{"id": p["id"], "src": p["src"], "inputs": p.get("inputs", []), "mods": p.get("mods", []), "budget": -1} for p in progs]
     r0 = vlib.run_cases(ck, "alloctrace", base, nproc=8)
@@ -63,7 +70,8 @@ def run(ck):
             budgets |= {max(A - 2, 0), max(A - 1, 0), A, A + 1, A + 7}
         for b in sorted(budgets):
             cid = len(cases) + 1
-            cases.append({"id": cid, "pid": p["id"], "src": p["src"], "inputs": p.get("inputs", []), "mods": p.get("mods", []), "budget": b})
+            # every third case runs a Clone() of the compiled script: the clone carries the budget of the script it came from
+            cases.append({"id": cid, "pid": p["id"], "src": p["src"], "inputs": p.get("inputs", []), "mods": p.get("mods", []), "budget": b, "clone": cid % 3 == 0})
     r1 = vlib.run_cases(ck, "alloctrace", cases, nproc=8)
     # one VM object run three times: every run has the whole budget (programs without inputs, so that the runs are independent)
     reuse = []
